@@ -562,4 +562,254 @@ theorem find_after_data_cut (init : Dir) (cur : File) (k b e : Nat) (res : Bytes
       · exact hpre it h
       · exact htake it h
 
+/-! ### a fresh search after the last index file was cut at byte `k` -/
+
+theorem find?_take_some {α : Type} (p : α → Bool) (l : List α) (n : Nat) (e : α) (h : (l.take n).find? p = some e) :
+    l.find? p = some e := by
+  induction l generalizing n with
+  | nil => simp at h
+  | cons x r ih =>
+    cases n with
+    | zero => simp at h
+    | succ n =>
+      simp only [List.take_succ_cons, List.find?_cons] at h ⊢
+      cases hx : p x with
+      | true => simpa [hx] using h
+      | false => rw [hx] at h; exact ih n h
+
+theorem take_two_blocks (a b r : Bytes) (k : Nat) (h : a.length + b.length ≤ k) :
+    (a ++ b ++ r).take k = a ++ b ++ r.take (k - (a.length + b.length)) := by
+  rw [List.take_append, List.take_of_length_le (by simp; omega)]
+  simp
+
+/-- scanning an index file cut at byte `k`: the entries wholly before the cut are found as before;
+    otherwise the scan ends without a position (end of file, or an error on the torn entry) -/
+theorem idxScan_take (ents : List (Nat × Nat)) (hb : entsBounded ents) (k fuel : Nat)
+    (hf : (ents.take (k / 16)).length < fuel) (pos bs : Nat) (c : Cache) (nm : Name) :
+    (∃ e, (ents.take (k / 16)).find? (fun e => decide (e.1 ≥ bs)) = some e ∧
+        (idxScan fuel ((encodeIdx ents).take k) pos bs c nm).2 = Found.at e.2) ∨
+    ((ents.take (k / 16)).find? (fun e => decide (e.1 ≥ bs)) = none ∧
+        ∀ off, (idxScan fuel ((encodeIdx ents).take k) pos bs c nm).2 ≠ Found.at off) := by
+  induction ents generalizing k fuel pos c with
+  | nil =>
+    right
+    cases fuel with
+    | zero => simp at hf
+    | succ f => simp [idxScan, encodeIdx]
+  | cons en r ih =>
+    obtain ⟨s, o⟩ := en
+    have hs := (hb (s, o) (by simp)).1
+    have ho := (hb (s, o) (by simp)).2
+    cases fuel with
+    | zero => simp at hf
+    | succ f =>
+      by_cases hk : 16 ≤ k
+      · have hk16 : k / 16 = (k - 16) / 16 + 1 := by omega
+        have htake : (encodeIdx ((s, o) :: r)).take k = be8 s ++ be8 o ++ (encodeIdx r).take (k - 16) := by
+          rw [encodeIdx, take_two_blocks _ _ _ _ (by simp [be8_length]; omega)]
+          simp [be8_length]
+        rw [htake, hk16, List.take_succ_cons]
+        have hlen : (be8 s ++ be8 o ++ (encodeIdx r).take (k - 16)).length = 16 + ((encodeIdx r).take (k - 16)).length := by
+          simp [be8_length]; omega
+        have hlen2 : (be8 o ++ (encodeIdx r).take (k - 16)).length = 8 + ((encodeIdx r).take (k - 16)).length := by
+          simp [be8_length]
+        unfold idxScan
+        rw [if_neg (by omega), if_neg (by omega)]
+        simp only [List.append_assoc, take8_be8, drop8_be8, beVal_be8 s hs, beVal_be8 o ho]
+        by_cases hge : s ≥ bs
+        · left
+          rw [if_pos hge, if_neg (by omega)]
+          exact ⟨(s, o), by simp [List.find?, hge], rfl⟩
+        · rw [if_neg hge, if_neg (by omega)]
+          have hf' : (r.take ((k - 16) / 16)).length < f := by
+            rw [hk16, List.take_succ_cons, List.length_cons] at hf; omega
+          rcases ih (fun e he => hb e (List.mem_cons_of_mem _ he)) (k - 16) f hf' (pos + 16)
+              { c with curOffsetInIdx := pos + 16 } with ⟨e, h1, h2⟩ | ⟨h1, h2⟩
+          · left; exact ⟨e, by simp [List.find?, hge, h1], h2⟩
+          · right; exact ⟨by simp [List.find?, hge, h1], h2⟩
+      · right
+        have hk0 : k / 16 = 0 := by omega
+        have hlen : ((encodeIdx ((s, o) :: r)).take k).length = k := by
+          rw [List.length_take, encodeIdx_length]; simp; omega
+        refine ⟨by simp [hk0], ?_⟩
+        intro off
+        unfold idxScan
+        by_cases h0 : k = 0
+        · rw [if_pos (by omega)]; simp
+        · rw [if_neg (by omega)]
+          by_cases h8 : k < 8
+          · rw [if_pos (by omega)]; simp
+          · rw [if_neg (by omega)]
+            have hrest : (((encodeIdx ((s, o) :: r)).take k).drop 8).length < 8 := by
+              rw [List.length_drop, hlen]; omega
+            simp only
+            split_ifs <;> simp
+
+def cutI (cur : File) (k : Nat) : File := { cur with idx := cur.idx.take k }
+/-- ghost view of the cut index: the entries wholly before byte `k` -/
+def truncE (cur : File) (k : Nat) : File := { cur with ents := cur.ents.take (k / 16) }
+
+theorem cutIdx_snoc (init : Dir) (cur : File) (k : Nat) : cutIdx (init ++ [cur]) k = init ++ [cutI cur k] := by
+  simp [cutIdx, modLast_snoc, cutI]
+
+theorem searchLoop_idx_cut (doRead : Dir → Nat → List Item) (b : Nat) (init : Dir) (cur : File) (k : Nat)
+    (hinit : ∀ f ∈ init, f.idx = encodeIdx f.ents ∧ entsBounded f.ents)
+    (hcur : cur.idx = encodeIdx cur.ents ∧ entsBounded cur.ents) (c : Cache) :
+    (searchLoop doRead b 0 (init ++ [cutI cur k]) c).2
+      = match firstHit (b / 1000) (init ++ [truncE cur k]) with
+        | some (d, off) => doRead (d.dropLast ++ [cutI cur k]) off
+        | none => [] := by
+  induction init generalizing c with
+  | nil =>
+    simp only [List.nil_append]
+    have hscan := idxScan_take cur.ents hcur.2 k (((encodeIdx cur.ents).take k).length + 1)
+      (by rw [List.length_take, List.length_take, encodeIdx_length]; omega) 0 (b / 1000)
+      { c with idxFile := none, metricFile := none, curOffsetInIdx := 0 } cur.name
+    have hfo : findOffsetToStart (cutI cur k) c b 0
+        = idxScan (((encodeIdx cur.ents).take k).length + 1) ((encodeIdx cur.ents).take k) 0 (b / 1000)
+            { c with idxFile := none, metricFile := none, curOffsetInIdx := 0 } cur.name := by
+      simp [findOffsetToStart, cutI, hcur.1]
+    unfold searchLoop firstHit
+    rw [hfo]
+    rcases hscan with ⟨e, h1, h2⟩ | ⟨h1, h2⟩
+    · have h1' : (truncE cur k).ents.find? (fun e => decide (e.1 ≥ b / 1000)) = some e := h1
+      rw [h1']
+      rcases hres : idxScan (((encodeIdx cur.ents).take k).length + 1) ((encodeIdx cur.ents).take k) 0 (b / 1000)
+          { c with idxFile := none, metricFile := none, curOffsetInIdx := 0 } cur.name with ⟨c', fd⟩
+      rw [hres] at h2
+      simp only at h2
+      subst h2
+      rfl
+    · have h1' : (truncE cur k).ents.find? (fun e => decide (e.1 ≥ b / 1000)) = none := h1
+      rw [h1']
+      rcases hres : idxScan (((encodeIdx cur.ents).take k).length + 1) ((encodeIdx cur.ents).take k) 0 (b / 1000)
+          { c with idxFile := none, metricFile := none, curOffsetInIdx := 0 } cur.name with ⟨c', fd⟩
+      rw [hres] at h2
+      cases fd with
+      | «at» off => exact absurd rfl (h2 off)
+      | notFound => rfl
+      | error => rfl
+  | cons f r ih =>
+    have h1 := findOffsetToStart_idxOK f (hinit f (by simp)).1 (hinit f (by simp)).2 c b
+    simp only [List.cons_append]
+    unfold searchLoop firstHit
+    cases hfind : f.ents.find? (fun e => decide (e.1 ≥ b / 1000)) with
+    | some e =>
+      rw [hfind] at h1
+      rcases hres : findOffsetToStart f c b 0 with ⟨c', fd⟩
+      rw [hres] at h1
+      simp only at h1
+      subst h1
+      simp only
+      congr 1
+      have : (f :: (r ++ [truncE cur k])).dropLast = f :: r := by
+        rw [← List.cons_append, List.dropLast_concat]
+      rw [this]; rfl
+    | none =>
+      rw [hfind] at h1
+      rcases hres : findOffsetToStart f c b 0 with ⟨c', fd⟩
+      rw [hres] at h1
+      simp only at h1
+      subst h1
+      exact ih (fun g hg => hinit g (List.mem_cons_of_mem _ hg)) c'
+
+/-- `firstHit` with the entries of the last file cut down to a prefix -/
+theorem firstHit_truncE (bs : Nat) (init : Dir) (cur : File) (k : Nat) :
+    firstHit bs (init ++ [truncE cur k])
+      = if (allEnts init ++ cur.ents.take (k / 16)).any (fun e => decide (e.1 ≥ bs))
+        then (firstHit bs (init ++ [cur])).map fun q => (q.1.dropLast ++ [truncE cur k], q.2)
+        else none := by
+  induction init with
+  | nil =>
+    simp only [List.nil_append, firstHit, allEnts, List.flatMap_nil]
+    cases hfind : (truncE cur k).ents.find? (fun e => decide (e.1 ≥ bs)) with
+    | some e =>
+      have hfind' : (cur.ents.take (k / 16)).find? (fun e => decide (e.1 ≥ bs)) = some e := hfind
+      have hany : (cur.ents.take (k / 16)).any (fun e => decide (e.1 ≥ bs)) = true := by
+        rw [List.any_eq_true]
+        have hp := List.find?_some hfind'
+        exact ⟨e, List.mem_of_find?_eq_some hfind', by simpa using hp⟩
+      rw [hany, if_pos rfl, find?_take_some _ _ _ _ hfind']
+      rfl
+    | none =>
+      have hfind' : (cur.ents.take (k / 16)).find? (fun e => decide (e.1 ≥ bs)) = none := hfind
+      have hany : (cur.ents.take (k / 16)).any (fun e => decide (e.1 ≥ bs)) = false := by
+        rw [List.any_eq_false]
+        intro x hx
+        exact List.find?_eq_none.1 hfind' x hx
+      rw [hany]; simp
+  | cons f r ih =>
+    simp only [List.cons_append, firstHit, allEnts_cons, List.append_assoc]
+    cases hfind : f.ents.find? (fun e => decide (e.1 ≥ bs)) with
+    | some e =>
+      have hany : (f.ents ++ (allEnts r ++ cur.ents.take (k / 16))).any (fun e => decide (e.1 ≥ bs)) = true := by
+        rw [List.any_eq_true]
+        have hp := List.find?_some hfind
+        exact ⟨e, List.mem_append_left _ (List.mem_of_find?_eq_some hfind), by simpa using hp⟩
+      rw [hany, if_pos rfl]
+      simp only [Option.map_some]
+      congr 2
+      have : (f :: (r ++ [cur])).dropLast = f :: r := by rw [← List.cons_append, List.dropLast_concat]
+      rw [this]; rfl
+    | none =>
+      have hnone : f.ents.any (fun e => decide (e.1 ≥ bs)) = false := by
+        rw [List.any_eq_false]; intro x hx; exact List.find?_eq_none.1 hfind x hx
+      rw [List.any_append, hnone, Bool.false_or]
+      exact ih
+
+theorem readByEnd_congr_data (d1 d2 : Dir) (h : d1.map (·.data) = d2.map (·.data)) (off b e : Nat) (res : Bytes) :
+    readByEnd d1 off b e res = readByEnd d2 off b e res := by
+  cases d1 with
+  | nil => cases d2 with
+    | nil => rfl
+    | cons _ _ => simp at h
+  | cons f1 r1 => cases d2 with
+    | nil => simp at h
+    | cons f2 r2 =>
+      simp only [List.map_cons, List.cons.injEq] at h
+      rw [readByEnd_eq, readByEnd_eq, h.1]
+      have : (r1.flatMap fun g => itemsFrom g.data 0) = (r2.flatMap fun g => itemsFrom g.data 0) := by
+        have e1 : ∀ r : Dir, (r.flatMap fun g => itemsFrom g.data 0) = (r.map (·.data)).flatMap fun x => itemsFrom x 0 := by
+          intro r; rw [List.flatMap_map]
+        rw [e1 r1, e1 r2, h.2]
+      rw [this]
+
+/-- **search after an index cut**: if an index entry not before `begin` lies wholly before the cut (in
+    an earlier file or in the cut file), a fresh search returns what it returned before the cut;
+    otherwise it returns nothing (never an error) -/
+theorem find_after_idx_cut (init : Dir) (cur : File) (k b e : Nat) (res : Bytes)
+    (hf : ∀ f ∈ init ++ [cur], f.idx = encodeIdx f.ents ∧ entsBounded f.ents) :
+    (find (cutIdx (init ++ [cur]) k) {} b e res).2
+      = if (allEnts init ++ cur.ents.take (k / 16)).any (fun en => decide (en.1 ≥ b / 1000))
+        then (find (init ++ [cur]) {} b e res).2 else [] := by
+  have h0 : offsetStartAndFile (init ++ [cutI cur k]) {} b = (0, 0) := by simp [offsetStartAndFile, cacheOk]
+  have h0' : offsetStartAndFile (init ++ [cur]) {} b = (0, 0) := by simp [offsetStartAndFile, cacheOk]
+  rw [cutIdx_snoc]
+  unfold find search
+  rw [h0, h0']
+  simp only [List.drop_zero]
+  rw [searchLoop_idx_cut _ _ _ _ _ (fun f hfm => hf f (List.mem_append_left _ hfm)) (hf cur (by simp)),
+    searchLoop_idxOK _ _ _ hf, firstHit_truncE]
+  split_ifs with hany
+  · cases hh : firstHit (b / 1000) (init ++ [cur]) with
+    | none => simp
+    | some p =>
+      obtain ⟨d, off⟩ := p
+      simp only [Option.map_some]
+      obtain ⟨pre, f, rest, e1, e2⟩ := firstHit_suffix _ _ _ _ hh
+      have hd : d = d.dropLast ++ [cur] := by
+        have hne : d ≠ [] := by rw [e2]; simp
+        have hl : d.getLast hne = cur := by
+          have : (init ++ [cur]).getLast (by simp) = cur := by simp
+          rw [← this]
+          have e3 : init ++ [cur] = pre ++ d := by rw [e1, e2]
+          simp only [e3]
+          rw [List.getLast_append_of_ne_nil _ hne]
+        rw [← hl, List.dropLast_append_getLast]
+      rw [List.dropLast_concat]
+      conv_rhs => rw [hd]
+      apply readByEnd_congr_data
+      simp [cutI]
+  · rfl
+
 end Sentinel.MetricLog
